@@ -98,12 +98,14 @@ pub proof fn lemma_cti_range(w: Seq<T>, n: nat)
 }
 use crate::props::c00_window::*;
 use crate::props::c06_h_cti::*;
-// every value CTI reports after any history lies in [-1, 1]
+// every value CTI reports after any history lies in [-1, 1], and the clamp in the code never acts in exact arithmetic: the reported value
+// IS the Pearson correlation of the values present (k = number of values in the window, also while it fills up)
 pub proof fn lemma_cti_range_history(h: Seq<T>, n: nat)
     requires n >= 1
     ensures ({ let o = CorrelationTrendIndicator::<Echo>::out(run::<CorrelationTrendIndicator<Echo>>((None::<T>, CorrelationTrendIndicatorOwn { n: n, w: Seq::<T>::empty() }), h));
-               o.is_some() && -1real <= o.unwrap().v() <= 1real })
+               o.is_some() && -1real <= o.unwrap().v() <= 1real && o == Some(mk(cti_of(win(h, n), win(h, n).len() as real))) })
 {
     lemma_run_cti(h, n);
-    lemma_cti_range(win(h, n), n);
+    if h.len() > 0 { lemma_cti_range(win(h, n), win(h, n).len()); }
+    else { assert(win(h, n) =~= Seq::<T>::empty()); assert(0real * sumsq(win(h, n)) == 0real) by(nonlinear_arith); }
 }
